@@ -38,3 +38,16 @@ SIM = {
     "r11-graphs":  consts(MaxN=8, MaxP=4, MaxD=2, PType=3, PoolS="R11S", PoolP="R11P", PoolO="R11O", PoolG="R11G"),
 }
 PFX_ATOMS = ("a/", "b#", "b/", "c/", "d#", "")
+
+# C18: CheckFits = FALSE -- statements may need more entries than a table has slots
+def c18_universes():
+    out = {}
+    for mp in (1, 2, 3):
+        out[f"c18-prefix-{mp}-t"] = ("prefix", consts(MaxP=mp, PType=1, CheckFits=False, AllowReject=True, PoolS="C18Iri", PoolP="C18Iri", PoolO="C18Iri"))
+        out[f"c18-prefix-{mp}-q"] = ("prefix", consts(MaxP=mp, PType=2, CheckFits=False, AllowReject=True, PoolS="C18Iri", PoolP="C18Iri", PoolO="C18Iri", PoolG="C18IriG"))
+    for md in (1, 2, 3):
+        out[f"c18-datatype-{md}-t"] = ("datatype", consts(MaxD=md, PType=1, CheckFits=False, AllowReject=True, PoolS="C18Dt", PoolP="C18Dt", PoolO="C18Dt"))
+        out[f"c18-datatype-{md}-q"] = ("datatype", consts(MaxD=md, PType=2, CheckFits=False, AllowReject=True, PoolS="C18Dt", PoolP="C18Dt", PoolO="C18Dt", PoolG="C18DtG"))
+    out["c18-name-8"] = ("name", consts(MaxN=8, MaxP=1, CheckFits=False, AllowReject=True, PoolS="C18NmS", PoolP="C18NmP", PoolO="C18NmO"))
+    out["c18-name-8np"] = ("name", consts(MaxN=8, MaxP=0, CheckFits=False, AllowReject=True, PoolS="C18NmS", PoolP="C18NmP", PoolO="C18NmO"))
+    return out
